@@ -1,3 +1,4 @@
+# Raised InconsistentGradingsError on /repo before 79421ab (fixes/C12-4.diff); must print "second write ok" since.
 """write(); move vertices; write()  -- the second write raises although the same geometry written by a new mesh is fine.
 Blocks whose counts are propagated keep the chops (with the cell count frozen) and the wire gradings copied in the
 first run; the chopped neighbour recomputes its count from the new edge lengths."""
